@@ -73,7 +73,13 @@ func VerifC13_FsckCommand() {
 			damagedObject = true
 		}
 		objs = append(objs, o)
-		p := &lfs.WrappedPointer{Name: "f" + string(rune('a'+k)) + ".bin", Sha1: strings.Repeat(string(rune('a'+k)), 40), Pointer: lfs.NewPointer(oid, int64(len(orig)), nil)}
+		// every object under a path of its own, or - two versions of one file,
+		// committed and staged, or two commits of a range - under the same path
+		name := "f" + string(rune('a'+k)) + ".bin"
+		if k > 0 && verifChoose("same.path.as.first", 2) == 1 {
+			name = "fa.bin"
+		}
+		p := &lfs.WrappedPointer{Name: name, Sha1: strings.Repeat(string(rune('a'+k)), 40), Pointer: lfs.NewPointer(oid, int64(len(orig)), nil)}
 		lfs.VerifScanRefs = append(lfs.VerifScanRefs, p)
 		// what the tree scan reports for the file
 		switch verifChoose("pointer.state", 3) {
